@@ -18,6 +18,7 @@ import (
 	"github.com/plgd-dev/go-coap/v3/message/codes"
 	"github.com/plgd-dev/go-coap/v3/message/pool"
 	coapNet "github.com/plgd-dev/go-coap/v3/net"
+	"github.com/plgd-dev/go-coap/v3/net/blockwise"
 	"github.com/plgd-dev/go-coap/v3/net/responsewriter"
 	"github.com/plgd-dev/go-coap/v3/options/config"
 	"github.com/plgd-dev/go-coap/v3/udp/client"
@@ -217,8 +218,11 @@ type memConn struct {
 var barrierToken = []byte{0xBA, 0x77, 0x1E, 0x77, 0xBA, 0x77, 0x1E, 0x77}
 
 type memConnOpts struct {
-	getMID        int32
+	getMID int32
+	// blockwise: put the real net/blockwise layer (expiration one hour: nothing expires during a case) between the
+	// connection and the handler; blockwiseSZX is the configured block size (Config.BlockwiseSZX)
 	blockwise     bool
+	blockwiseSZX  blockwise.SZX
 	queueSize     int
 	nstart        uint32
 	ackTimeout    time.Duration
@@ -272,6 +276,15 @@ func newMemConn(o memConnOpts) *memConn {
 	cfg.LimitClientParallelRequests = o.limitTotal
 	cfg.LimitClientEndpointParallelRequests = o.limitEndpoint
 	cfg.MaxMessageSize = o.maxMsg
+	if o.blockwise {
+		cfg.BlockwiseSZX = o.blockwiseSZX
+		errs := cfg.Errors
+		o.opts = append(append([]client.Option{}, o.opts...), client.WithBlockWise(func(cc *client.Conn) *blockwise.BlockWise[*client.Conn] {
+			return blockwise.New(cc, time.Hour, errs, func(token message.Token) (*pool.Message, bool) {
+				return cc.GetObservationRequest(token)
+			})
+		}))
+	}
 	if o.processReceived != nil {
 		cfg.ProcessReceivedMessage = o.processReceived
 	}
